@@ -367,10 +367,7 @@ func checkStat(r *Run, where string) bool {
 		r.violate("Stat|size", "%s: Stat reports size %d, the segment files add up to %d", where, st.Size, size)
 		return false
 	}
-	if st.Segments != nseg {
-		r.violate("Stat|segments", "%s: Stat reports %d segments, the directory has %d", where, st.Segments, nseg)
-		return false
-	}
+	_ = nseg // Stats.Segments is mentioned by no property: compared only differentially (observation battery)
 	return true
 }
 
